@@ -135,6 +135,72 @@ theorem file_round_trip (forb : List Nat) (htab : TableOk forb = true) (m : Meta
   rw [h2, Hpv.Csv.flatten_splitLines]
   exact Hpv.Csv.readDict_write force _ rows (by simp) hrs
 
+/-! ### from the container to the file and back -/
+
+/-- `term_a`, `term_b`, `ic_mica` -/
+def colA : Str := [116, 101, 114, 109, 95, 97]
+def colB : Str := [116, 101, 114, 109, 95, 98]
+def colV : Str := [105, 99, 95, 109, 105, 99, 97]
+def headerRow : List Str := [colA, colB, colV]
+
+/-- the data rows `to_csv` hands to the csv writer: one `[left, right, str(value)]` per listed item -/
+def dataRows (repr : Int → Str) (s : State) : List (List Str) := (items s).map (fun t => [t.1, t.2.1, repr t.2.2])
+
+/-- what `from_csv` does with one `DictReader` record: `(record['term_a'], record['term_b'], float(record['ic_mica']))` -/
+def recordOp (parse : Str → Option Int) (rec : List (Str × Str)) : Option Op :=
+  match lookup colA rec, lookup colB rec, (lookup colV rec).bind parse with
+  | some a, some b, some v => some (Op.set a b v)
+  | _, _, _ => none
+
+/-- `from_csv` after the csv layer: every record becomes a `set_similarity` on a fresh container -/
+def fromRecords (parse : Str → Option Int) (recs : List (List (Str × Str))) : Option State :=
+  (recs.mapM (recordOp parse)).map run
+
+/-- **`to_csv` then `from_csv`, from container to container.** For every history of the container, every metadata the
+writer accepts, every way of writing a value that the reader's `float(...)` undoes (`parse (repr v) = some v`; for Python:
+`float(repr(x)) == x`), every title line and any quoting beyond necessity: the file - title comment, metadata comment,
+the physical lines of the csv text for the header row and one row per listed item - is read back (header filter,
+`_parse_meta`, csv state machine, `DictReader`, one `set_similarity` per record) into a container that answers every read,
+in either key order, like the one that was written, with the same metadata. Term ids may contain anything. -/
+theorem container_file_round_trip (forb : List Nat) (htab : TableOk forb = true) (m : Meta) (hm : MetaOk forb m) (title : Str)
+    (force : Nat → Nat → Bool) (repr : Int → Str) (parse : Str → Option Int) (hpr : ∀ v, parse (repr v) = some v)
+    (ops : List Op) :
+    ∃ s recs st', encodeMeta forb m = .ok s ∧
+      parseMeta (unframe (frame title s (Hpv.Csv.splitLines
+        (Hpv.Csv.writeRows force 0 (headerRow :: dataRows repr (run ops)))))).1 = .ok m ∧
+      Hpv.Csv.readDict (unframe (frame title s (Hpv.Csv.splitLines
+        (Hpv.Csv.writeRows force 0 (headerRow :: dataRows repr (run ops)))))).2.flatten = .ok (headerRow, recs) ∧
+      fromRecords parse recs = some st' ∧ ∀ x y, get st' x y = get (run ops) x y ∧ get st' x y = get st' y x := by
+  have hrs : ∀ r ∈ dataRows repr (run ops), r ≠ [] := by
+    intro r hr
+    obtain ⟨t, _, rfl⟩ := List.mem_map.mp hr
+    simp
+  obtain ⟨s, h1, h2, h3⟩ := file_round_trip forb htab m hm title force 116 [101, 114, 109, 95, 97] [colB, colV]
+    (dataRows repr (run ops)) (by decide) hrs
+  have hhead : ((116 : Nat) :: [101, 114, 109, 95, 97]) :: [colB, colV] = headerRow := rfl
+  rw [hhead] at h2 h3
+  have hrec : ∀ (L : List (Str × Str × Int)),
+      ((L.map (fun t => [t.1, t.2.1, repr t.2.2])).map (fun r => headerRow.zip r)).mapM (recordOp parse) = some (L.map itemOp) := by
+    intro L
+    induction L with
+    | nil => rfl
+    | cons t L ih =>
+      have h0 : recordOp parse (headerRow.zip [t.1, t.2.1, repr t.2.2]) = some (itemOp t) := by
+        have ha : lookup colA (headerRow.zip [t.1, t.2.1, repr t.2.2]) = some t.1 := by simp [headerRow, lookup]
+        have hb : lookup colB (headerRow.zip [t.1, t.2.1, repr t.2.2]) = some t.2.1 := by
+          simp [headerRow, lookup, colA, colB]
+        have hv : lookup colV (headerRow.zip [t.1, t.2.1, repr t.2.2]) = some (repr t.2.2) := by
+          simp [headerRow, lookup, colA, colB, colV]
+        simp [recordOp, ha, hb, hv, hpr, itemOp]
+      simp only [List.map_cons, List.mapM_cons, h0, ih]
+      rfl
+  refine ⟨s, _, rebuild (run ops), h1, h2, h3, ?_, ?_⟩
+  · unfold fromRecords dataRows
+    rw [hrec (items (run ops))]
+    rfl
+  · intro x y
+    exact ⟨rebuild_get (run ops) (wf_run ops) x y, get_comm _ x y⟩
+
 /-- `to_csv` stamps the metadata with `created` first, so what it encodes is never empty. -/
 theorem stamped_nonempty (m : Meta) (ts : Str) : upsert createdKey ts m ≠ [] := by
   intro h
@@ -154,6 +220,9 @@ example : unframe (frame [116] [107, 61, 118] [[116, 10], [35, 88, 58, 49, 44, 7
     ([[35, 116, 10], [35, 107, 61, 118, 10]], [[116, 10], [35, 88, 58, 49, 44, 72, 10], [35, 10]]) := by decide
 example : parseMeta [[35, 116, 10], [35, 107, 61, 118, 13, 10]] = .ok [([107], [118])] := by rfl
 
+-- a value format and its inverse (decimal digits of a natural number; negative values never reach the file)
+example : recordOp (fun s => if s = [53] then some 5 else none) (headerRow.zip [[65], [66], [53]]) = some (Op.set [65] [66] 5) := by
+  rfl
 -- the csv layer on a row with a delimiter, a quote, a CR LF and a lone LF inside fields, and a row of one empty field
 example : Hpv.Csv.writeMinimal [[[97, 44, 98], [34], [13, 10, 35], [10]], [[]]] =
     [34, 97, 44, 98, 34, 44, 34, 34, 34, 34, 44, 34, 13, 10, 35, 34, 44, 34, 10, 34, 13, 10, 34, 34, 13, 10] := by decide
